@@ -289,3 +289,253 @@ Proof.
   - destruct (existsb _ ts), (existsb _ (map tn ts)); try discriminate; [|reflexivity].
     apply some_inj in IH. cbn [app]. rewrite IH. reflexivity.
 Qed.
+
+(* ---------- reading then writing a byte string that has trailing bytes ---------- *)
+(* stl.Read ignores whatever follows the announced records; stl.Write reproduces header, count and records,
+   i.e. the first 84 + 50 n bytes of the input *)
+Theorem write_read_prefix bytes hdr ts :
+  bytes_ok bytes -> read bytes = Some (hdr, ts) ->
+  write hdr ts = firstn (84 + 50 * length ts) bytes /\ (84 + 50 * length ts <= length bytes)%nat.
+Proof.
+  intros Hb Hr. destruct (read_inv _ _ _ Hb Hr) as (rest & -> & Hh & _ & _).
+  assert (Hl : length (write hdr ts) = (84 + 50 * length ts)%nat) by (rewrite write_length, Hh; reflexivity).
+  rewrite <- Hl. split.
+  - rewrite firstn_app, firstn_all, Nat.sub_diag, firstn_O, app_nil_r. reflexivity.
+  - rewrite app_length. lia.
+Qed.
+
+(* ---------- the chunked reader (stl.Read reads min(remaining, 4096) records per binary.Read) ---------- *)
+Lemma take_length {A} n (l a r : list A) : take n l = Some (a, r) -> length l = (n + length r)%nat.
+Proof. intros H. apply take_spec in H. destruct H as [-> <-]. apply app_length. Qed.
+
+Lemma get32_length l w r : get32 l = Some (w, r) -> length l = (4 + length r)%nat.
+Proof.
+  unfold get32. destruct (take 4 l) as [[a r']|] eqn:E; cbn [bind]; [|discriminate].
+  destruct (de_le32 a); cbn [bind]; [|discriminate]. intros H.
+  assert (r' = r) by congruence. subst. eapply take_length; eassumption.
+Qed.
+
+Lemma get16_length l w r : get16 l = Some (w, r) -> length l = (2 + length r)%nat.
+Proof.
+  unfold get16. destruct (take 2 l) as [[a r']|] eqn:E; cbn [bind]; [|discriminate].
+  destruct (de_le16 a); cbn [bind]; [|discriminate]. intros H.
+  assert (r' = r) by congruence. subst. eapply take_length; eassumption.
+Qed.
+
+Lemma getvec_length l v r : getvec l = Some (v, r) -> length l = (12 + length r)%nat.
+Proof.
+  unfold getvec.
+  destruct (get32 l) as [[x r1]|] eqn:E1; cbn [bind]; [|discriminate].
+  destruct (get32 r1) as [[y r2]|] eqn:E2; cbn [bind]; [|discriminate].
+  destruct (get32 r2) as [[z r3]|] eqn:E3; cbn [bind]; [|discriminate].
+  intros H. assert (r3 = r) by congruence. subst.
+  apply get32_length in E1, E2, E3. lia.
+Qed.
+
+Lemma gettri_length l t r : gettri l = Some (t, r) -> length l = (50 + length r)%nat.
+Proof.
+  unfold gettri.
+  destruct (getvec l) as [[n r1]|] eqn:E1; cbn [bind]; [|discriminate].
+  destruct (getvec r1) as [[a r2]|] eqn:E2; cbn [bind]; [|discriminate].
+  destruct (getvec r2) as [[b r3]|] eqn:E3; cbn [bind]; [|discriminate].
+  destruct (getvec r3) as [[c r4]|] eqn:E4; cbn [bind]; [|discriminate].
+  destruct (get16 r4) as [[at_ r5]|] eqn:E5; cbn [bind]; [|discriminate].
+  intros H. assert (r5 = r) by congruence. subst.
+  apply getvec_length in E1, E2, E3, E4. apply get16_length in E5. lia.
+Qed.
+
+Lemma read_tris_rest_0 fuel l : read_tris_rest fuel 0 l = Some ([], l).
+Proof. destruct fuel; reflexivity. Qed.
+
+Lemma read_tris_rest_nil fuel c : c <> 0 -> read_tris_rest fuel c [] = None.
+Proof. intros H. destruct fuel; cbn [read_tris_rest]; destruct (c =? 0) eqn:E; try reflexivity; lia. Qed.
+
+Lemma read_tris_rest_S f c l : c <> 0 ->
+  read_tris_rest (S f) c l =
+  (do '(t, r) <- gettri l; do '(ts, r') <- read_tris_rest f (c - 1) r; Some (t :: ts, r')).
+Proof. intros H. cbn [read_tris_rest]. replace (c =? 0) with false by lia. reflexivity. Qed.
+
+(* [read_tris] is [read_tris_rest] without the rest *)
+Lemma read_tris_fst fuel : forall c l, read_tris fuel c l = option_map fst (read_tris_rest fuel c l).
+Proof.
+  induction fuel as [|f IH]; intros c l; cbn [read_tris read_tris_rest]; destruct (c =? 0); try reflexivity.
+  destruct (gettri l) as [[t r]|]; cbn [bind]; [|reflexivity]. rewrite IH.
+  destruct (read_tris_rest f (c - 1) r) as [[ts r']|]; reflexivity.
+Qed.
+
+(* any fuel that covers the bytes present gives the same answer *)
+Lemma read_tris_rest_fuel f : forall f' c l, (length l <= f)%nat -> (length l <= f')%nat ->
+  read_tris_rest f c l = read_tris_rest f' c l.
+Proof.
+  induction f as [|f IH]; intros f' c l Hf Hf'; (destruct (N.eq_dec c 0) as [->|Hc]; [rewrite !read_tris_rest_0; reflexivity|]).
+  - destruct l; [|simpl in Hf; lia]. rewrite !read_tris_rest_nil by assumption. reflexivity.
+  - destruct f' as [|f'].
+    + destruct l; [|simpl in Hf'; lia]. rewrite !read_tris_rest_nil by assumption. reflexivity.
+    + cbn [read_tris_rest]. destruct (c =? 0); [reflexivity|].
+      destruct (gettri l) as [[t r]|] eqn:Et; cbn [bind]; [|reflexivity].
+      apply gettri_length in Et. rewrite (IH f' (c - 1) r) by lia. reflexivity.
+Qed.
+
+Lemma read_tris_rest_length fuel : forall c l ts r, read_tris_rest fuel c l = Some (ts, r) ->
+  N.of_nat (length ts) = c /\ length l = (50 * length ts + length r)%nat.
+Proof.
+  induction fuel as [|f IH]; intros c l ts r; cbn [read_tris_rest]; destruct (c =? 0) eqn:Ec.
+  - intros H. assert (ts = [] /\ r = l) as [-> ->] by (split; congruence). simpl. lia.
+  - discriminate.
+  - intros H. assert (ts = [] /\ r = l) as [-> ->] by (split; congruence). simpl. lia.
+  - destruct (gettri l) as [[t r1]|] eqn:Et; cbn [bind]; [|discriminate].
+    destruct (read_tris_rest f (c - 1) r1) as [[ts' r']|] eqn:Er; cbn [bind]; [|discriminate].
+    intros H. assert (ts = t :: ts' /\ r = r') as [-> ->] by (split; congruence).
+    apply gettri_length in Et. apply IH in Er. destruct Er as [Hc Hl]. simpl length. lia.
+Qed.
+
+(* reading a + b records = reading a records, then b records from the rest *)
+Lemma read_tris_rest_split fuel : forall a b l, (length l <= fuel)%nat ->
+  read_tris_rest fuel (a + b) l =
+  (do '(x, r) <- read_tris_rest fuel a l; do '(y, r') <- read_tris_rest fuel b r; Some (x ++ y, r')).
+Proof.
+  induction fuel as [|f IH]; intros a b l Hf; (destruct (N.eq_dec a 0) as [->|Ha];
+    [rewrite read_tris_rest_0; cbn [bind]; rewrite N.add_0_l;
+     destruct (read_tris_rest _ b l) as [[y r']|]; reflexivity|]).
+  - cbn [read_tris_rest]. replace (a + b =? 0) with false by lia. replace (a =? 0) with false by lia. reflexivity.
+  - rewrite (read_tris_rest_S f (a + b)), (read_tris_rest_S f a) by lia.
+    destruct (gettri l) as [[t r]|] eqn:Et; cbn [bind]; [|reflexivity].
+    apply gettri_length in Et. replace (a + b - 1) with ((a - 1) + b) by lia.
+    rewrite IH by lia.
+    destruct (read_tris_rest f (a - 1) r) as [[x r1]|] eqn:E1; cbn [bind]; [|reflexivity].
+    apply read_tris_rest_length in E1. destruct E1 as [_ Hl].
+    rewrite (read_tris_rest_fuel f (S f) b r1) by lia.
+    destruct (read_tris_rest (S f) b r1) as [[y r']|]; reflexivity.
+Qed.
+
+(* the chunk loop returns what one pass over all announced records returns: for EVERY chunk size k >= 1 *)
+Lemma read_chunks_eq fuel : forall k rem l fuel', 1 <= k -> (length l <= fuel)%nat -> (length l <= fuel')%nat ->
+  read_chunks fuel k rem l = read_tris_rest fuel' rem l.
+Proof.
+  induction fuel as [|f IH]; intros k rem l fuel' Hk Hf Hf';
+    (destruct (N.eq_dec rem 0) as [->|Hr]; [rewrite read_tris_rest_0; reflexivity|]).
+  - destruct l; [|simpl in Hf; lia]. rewrite read_tris_rest_nil by assumption.
+    cbn [read_chunks]. replace (rem =? 0) with false by lia. reflexivity.
+  - cbn [read_chunks]. replace (rem =? 0) with false by lia.
+    remember (N.min rem k) as c eqn:Ec.
+    assert (Hc : 1 <= c /\ c <= rem) by lia.
+    pose proof (read_tris_rest_split fuel' c (rem - c) l Hf') as Hs.
+    replace (c + (rem - c)) with rem in Hs by lia. rewrite Hs.
+    rewrite (read_tris_rest_fuel (length l) fuel' c l) by lia.
+    destruct (read_tris_rest fuel' c l) as [[buf r]|] eqn:E; cbn [bind]; [|reflexivity].
+    apply read_tris_rest_length in E. destruct E as [Hlen Hl].
+    rewrite (IH k (rem - c) r fuel') by lia.
+    destruct (read_tris_rest fuel' (rem - c) r) as [[y r']|]; reflexivity.
+Qed.
+
+Theorem read_chunked_eq_read k bytes : 1 <= k -> read_chunked k bytes = read bytes.
+Proof.
+  intros Hk. unfold read_chunked, read.
+  destruct (take 80 bytes) as [[hdr r]|]; cbn [bind]; [|reflexivity].
+  destruct (get32 r) as [[count r2]|]; cbn [bind]; [|reflexivity].
+  rewrite (read_chunks_eq (length r2) k count r2 (length r2)) by lia.
+  rewrite read_tris_fst. destruct (read_tris_rest (length r2) count r2) as [[ts r']|]; reflexivity.
+Qed.
+
+(* ---------- which word is stored where ---------- *)
+(* record t of a written file occupies bytes 84 + 50 t ... 84 + 50 t + 49 *)
+Theorem write_record_at hdr ts t d : length hdr = 80%nat -> (t < length ts)%nat ->
+  exists pre post, write hdr ts = pre ++ rec50 (nth t ts d) ++ post /\ length pre = (84 + 50 * t)%nat.
+Proof.
+  intros Hh Ht. destruct (nth_split ts d Ht) as (l1 & l2 & E & Hl).
+  remember (nth t ts d) as x eqn:Hx. clear Hx. subst ts.
+  exists (hdr ++ le32 (N.of_nat (length (l1 ++ x :: l2))) ++ flat_map rec50 l1), (flat_map rec50 l2).
+  split.
+  - unfold write. rewrite flat_map_app. cbn [flat_map]. rewrite <- !app_assoc. reflexivity.
+  - rewrite !app_length, le32_length, flat_rec50_length. lia.
+Qed.
+
+(* the records stl.WriteMesh builds: facet normal word triple t, then the three corners through the index *)
+Lemma gather_tris_nth fns : forall idx pos ts, gather_tris idx pos fns = Some ts ->
+  length idx = (3 * length fns)%nat ->
+  length ts = length fns /\
+  forall t d, (t < length fns)%nat ->
+    nth t ts d = {| tn := nth t fns vzero;
+                    ta := nth (nth (3 * t) idx O) pos vzero;
+                    tb := nth (nth (3 * t + 1) idx O) pos vzero;
+                    tc := nth (nth (3 * t + 2) idx O) pos vzero; tattr := 0 |}.
+Proof.
+  induction fns as [|f fns IH]; intros idx pos ts H Hl.
+  - destruct idx; cbn [gather_tris] in H; apply some_inj in H; subst ts; (split; [reflexivity|]); intros t d Ht; simpl in Ht; lia.
+  - destruct idx as [|i [|j [|k idx]]]; try (simpl in Hl; lia).
+    cbn [gather_tris] in H.
+    destruct (nth_error pos i) as [a|] eqn:Ea; cbn [bind] in H; [|discriminate].
+    destruct (nth_error pos j) as [b|] eqn:Eb; cbn [bind] in H; [|discriminate].
+    destruct (nth_error pos k) as [c|] eqn:Ec; cbn [bind] in H; [|discriminate].
+    destruct (gather_tris idx pos fns) as [ts'|] eqn:E; cbn [bind] in H; [|discriminate].
+    apply some_inj in H. subst ts.
+    destruct (IH idx pos ts' E) as [Hlen Hn]; [simpl in Hl; lia|].
+    split; [simpl; lia|]. intros t d Ht. destruct t as [|t].
+    + cbn [nth Nat.mul Nat.add]. rewrite (nth_error_nth _ _ _ Ea), (nth_error_nth _ _ _ Eb), (nth_error_nth _ _ _ Ec).
+      reflexivity.
+    + replace (3 * S t)%nat with (S (S (S (3 * t)))) by lia.
+      replace (S (S (S (3 * t))) + 1)%nat with (S (S (S (3 * t + 1)))) by lia.
+      replace (S (S (S (3 * t))) + 2)%nat with (S (S (S (3 * t + 2)))) by lia.
+      cbn [nth]. apply Hn. simpl in Ht. lia.
+Qed.
+
+(* byte-exact placement in what stl.WriteMesh writes: 80 zero bytes, the count, and for triangle t at offset
+   84 + 50 t the facet normal words, the corners idx[3t], idx[3t+1], idx[3t+2] and a zero attribute word *)
+Theorem mesh_record_at idx pos fns bytes t :
+  write_mesh idx (Some pos) fns = Some bytes -> length idx = (3 * length fns)%nat -> (t < length fns)%nat ->
+  let corner j := nth (nth j idx O) pos vzero in
+  exists pre post,
+    bytes = pre ++ vec12 (nth t fns vzero) ++ vec12 (corner (3 * t)%nat) ++ vec12 (corner (3 * t + 1)%nat)
+                ++ vec12 (corner (3 * t + 2)%nat) ++ [0; 0] ++ post
+    /\ length pre = (84 + 50 * t)%nat.
+Proof.
+  intros H Hl Ht corner. unfold write_mesh in H.
+  destruct (gather_tris idx pos fns) as [ts|] eqn:E; cbn [bind] in H; [|discriminate].
+  apply some_inj in H. subst bytes.
+  destruct (gather_tris_nth fns idx pos ts E Hl) as [Hlen Hn].
+  destruct (write_record_at zero_hdr ts t {| tn := vzero; ta := vzero; tb := vzero; tc := vzero; tattr := 0 |})
+    as (pre & post & Ew & Hp); [reflexivity|lia|].
+  exists pre, post. split; [|exact Hp]. rewrite Ew, (Hn t _ Ht). unfold rec50. cbn [tn ta tb tc tattr].
+  rewrite <- !app_assoc. reflexivity.
+Qed.
+
+Theorem mesh_header idx pos fns bytes :
+  write_mesh idx (Some pos) fns = Some bytes -> length idx = (3 * length fns)%nat ->
+  exists recs, bytes = repeat 0 80 ++ le32 (N.of_nat (length fns)) ++ recs /\ length recs = (50 * length fns)%nat.
+Proof.
+  intros H Hl. unfold write_mesh in H.
+  destruct (gather_tris idx pos fns) as [ts|] eqn:E; cbn [bind] in H; [|discriminate].
+  apply some_inj in H. subst bytes. destruct (gather_tris_nth fns idx pos ts E Hl) as [Hlen _].
+  exists (flat_map rec50 ts). unfold write, zero_hdr. rewrite Hlen, flat_rec50_length, Hlen. split; reflexivity.
+Qed.
+
+(* corner j of the mesh read back carries the facet normal stored for triangle j / 3 (Flat: stored normal is
+   zero and stl.ReadMesh substitutes the geometric normal, float arithmetic outside the model) *)
+Lemma nth_flat_triple {A B} (g : A -> B) (l : list A) : forall j dA dB, (j < 3 * length l)%nat ->
+  nth j (flat_map (fun f => [g f; g f; g f]) l) dB = g (nth (j / 3) l dA).
+Proof.
+  induction l as [|a l IH]; intros j dA dB Hj; [simpl in Hj; lia|].
+  cbn [flat_map]. destruct j as [|[|[|j]]]; try reflexivity.
+  cbn [app nth]. rewrite (IH j dA dB) by (simpl in Hj; lia).
+  replace (S (S (S j)) / 3)%nat with (S (j / 3)) by lia. reflexivity.
+Qed.
+
+Lemma flat_map_length3 {A B} (F : A -> list B) l :
+  (forall a, length (F a) = 3%nat) -> length (flat_map F l) = (3 * length l)%nat.
+Proof. intros H. induction l as [|a l IH]; [reflexivity|]. cbn [flat_map]. rewrite app_length, H, IH. simpl. lia. Qed.
+
+Theorem mesh_normals_read_back idx pos fns :
+  length idx = (3 * length fns)%nat -> Forall (fun i => (i < length pos)%nat) idx ->
+  Forall vec_ok pos -> Forall vec_ok fns -> N.of_nat (length fns) < 4294967296 ->
+  existsb (fun f => negb (vec_zero f)) fns = true ->
+  exists bytes m ns,
+    write_mesh idx (Some pos) fns = Some bytes /\ read_mesh bytes = Some m /\ r_nrm m = Some ns /\
+    length ns = length idx /\
+    forall j, (j < length idx)%nat -> nth j ns Flat = vec_nrm (nth (j / 3) fns vzero).
+Proof.
+  intros Hl Hr Hp Hf Hn He.
+  destruct (mesh_roundtrip idx pos fns Hl Hr Hp Hf Hn) as (bytes & m & Hw & _ & Hrd & _ & _ & _ & Hnr).
+  rewrite He in Hnr. exists bytes, m. eexists. repeat (split; [eassumption|]). split.
+  - rewrite Hl. apply flat_map_length3. intros a. reflexivity.
+  - intros j Hj. apply (nth_flat_triple vec_nrm). lia.
+Qed.
